@@ -69,7 +69,7 @@ func genC01(rt *rapid.T) c01Case {
 			if gen.Chance(rt, "badcombo", 1, 20) {
 				ask = n + 1 // more than can ever be active
 			}
-			c.Ops = append(c.Ops, c01Op{Kind: "request", Script: gen.Uniform(rt, "script", 4), Ask: ask, Min: min,
+			c.Ops = append(c.Ops, c01Op{Kind: "request", Script: gen.Uniform(rt, "script", 5), Ask: ask, Min: min,
 				CallLen: rapid.IntRange(0, 12).Draw(rt, "calllen"), ClientID: rapid.StringMatching(`[a-z]{0,6}`).Draw(rt, "client")})
 			issued++
 		case w < 30:
@@ -130,7 +130,7 @@ type c01Req struct {
 	reportInExpiryBlock bool
 }
 
-var c01ScriptEids = [][]uint64{{1, 2}, {1}, {1}, {1}}
+var c01ScriptEids = [][]uint64{{1, 2}, {1}, {1}, {1}, {1}}
 
 func c01EchoResult(r *c01Req, execTime int64) []byte {
 	var b bytes.Buffer
@@ -165,7 +165,8 @@ func runC01(c c01Case) *pbt.Verdict {
 		NumAccounts: 2, Validators: vals, Oracle: &op,
 		DataSources: []sim.DSSpec{{Exec: []byte("ds-one-executable-bytes-0123456789abcdef"), Treasury: 1}, {Exec: []byte("ds-two-executable-bytes-0123456789abcdef"), Treasury: 1}},
 		Scripts: [][]byte{sim.ScriptAsk([]int{1, 2}, "ok"), sim.ScriptEcho(1), sim.ScriptAsk([]int{2}, ""),
-			sim.ScriptProbe(1, map[string]int{"last": -1, "ask": 0, "ask+1": 1, "neg1": 0}[c.Probe], c.Probe == "neg1")},
+			sim.ScriptProbe(1, map[string]int{"last": -1, "ask": 0, "ask+1": 1, "neg1": 0}[c.Probe], c.Probe == "neg1"),
+			sim.ScriptReturnEmpty([]int{2})},
 	}, 0)
 	if err != nil {
 		v.Failf("harness", "sim.New: %v", err)
@@ -307,6 +308,9 @@ func runC01(c c01Case) *pbt.Verdict {
 				r.status, r.result = oracletypes.RESOLVE_STATUS_SUCCESS, c01EchoResult(r, now)
 			case 2:
 				r.status, r.result = oracletypes.RESOLVE_STATUS_FAILURE, []byte{}
+			case 4:
+				// the script ran without error and set a zero-length return value: SUCCESS with an empty result
+				r.status, r.result = oracletypes.RESOLVE_STATUS_SUCCESS, []byte{}
 			case 3:
 				// a script probing a validator index outside 0..ask_count-1 fails; a valid index is harmless
 				if c.Probe == "last" {
